@@ -7,7 +7,7 @@ fn main() {
     let mut c = connect(&server);
     let kinds: Vec<(&str, u16, Option<usize>, usize, usize)> = vec![   // method, status, declared length, actual length, threshold
         ("GET", 200, Some(5), 5, 32768), ("GET", 200, Some(0), 0, 0), ("GET", 200, None, 7, 32768), ("GET", 200, Some(40), 40, 10),
-        ("HEAD", 200, Some(5), 5, 32768), ("GET", 204, Some(0), 0, 32768), ("GET", 304, Some(3), 3, 32768), ("GET", 200, None, 0, 32768), ("GET", 404, Some(2), 2, 32768),
+        ("HEAD", 200, Some(5), 5, 32768), ("GET", 204, Some(0), 0, 32768), ("GET", 304, Some(3), 3, 32768), ("GET", 200, None, 0, 32768), ("HEAD", 200, None, 7, 32768), ("GET", 304, None, 3, 32768), ("HEAD", 200, Some(50), 50, 10), ("GET", 404, Some(2), 2, 32768),
     ];
     let mut msg = String::new();
     for (i, k) in kinds.iter().enumerate() { msg += &format!("{} /{} HTTP/1.1\r\nHost: a\r\n\r\n", k.0, i); }
